@@ -216,3 +216,60 @@ Proof.
   rewrite E in H. fold c1 in H. apply cache_ok_joint in H. destruct H as (A & B & K1 & K2 & _).
   apply cache_ok_joint. subst shared. cbn [set_kids c_asd c_vc c_kids kids_ok hd tl snd]. split; [exact A|]. split; [exact B|]. split; [exact K1|]. split; [exact K1|exact I].
 Qed.
+
+(* ---------------------------------------------------------------- round 3: eq => equal hash; Scope.overwrite *)
+Require Import QV.C13.Hash QV.C13.ProofsHash.
+From Coq Require Import Permutation.
+
+(* EQ => EQUAL HASH.  `scope_hash` follows the __hash__ methods (tuples of the fields; a FrozenDict hashes the set of its
+   items).  For EVERY string hash hN, every tuple combiner tup, every number hash hQ that respects == and every frozenset
+   combiner that does not depend on the order of the entries: scopes that compare equal have equal hashes *)
+Theorem C13_eq_hash : forall (hN : ident -> Z) (hQ : Q -> Z) (tup fset : list Z -> Z),
+  (forall p q, Qeq_bool p q = true -> hQ p = hQ q) ->
+  (forall l l', Permutation l l' -> fset l = fset l') ->
+  forall a b, wf_scope a = true -> wf_scope b = true -> scope_eqb a b = true ->
+  scope_hash hN hQ tup fset a = scope_hash hN hQ tup fset b.
+Proof. intros hN hQ tup fset H1 H2 a b Ha Hb. exact (scope_eqb_hash hN hQ tup fset H1 H2 a Ha b Hb). Qed.
+Print Assumptions C13_eq_hash.
+
+(* ... in particular with CPython's frozenset combiner (xor of individually shuffled entry hashes, 64 bit) and the
+   reduced fraction as number hash; so the two laws are satisfiable and hold for the combiner Python uses *)
+Theorem C13_eq_hash_cpython : forall hN tup a b, wf_scope a = true -> wf_scope b = true -> scope_eqb a b = true ->
+  scope_hash hN red_hash tup cpy_fset a = scope_hash hN red_hash tup cpy_fset b.
+Proof. intros hN tup. exact (C13_eq_hash hN red_hash tup cpy_fset red_hash_eq cpy_fset_perm). Qed.
+Print Assumptions C13_eq_hash_cpython.
+
+(* change_constants yields a scope with the hash of the scope built from the changed constants *)
+Theorem C13_change_hash : forall hN hQ tup fset s c nc,
+  scope_hash hN hQ tup fset (ch_scope (cc s c nc)) = scope_hash hN hQ tup fset (rebuild s nc).
+Proof. intros. now rewrite (proj1 (cc_scope_rebuild s c nc)). Qed.
+Print Assumptions C13_change_hash.
+
+(* the hash is not trivially constant in the example instance: the witness scopes of two different constants differ *)
+Example C13_eq_hash_nontrivial :
+  let h := scope_hash (fun n => Z.of_N n) red_hash (fold_right (fun x acc => (acc * 31 + x)%Z) 7%Z) cpy_fset in
+  h (SDict [(0%N, 1#1); (1%N, 2#1)] [0%N]) = h (SDict [(1%N, 4#2); (0%N, 2#2)] [0%N; 0%N]) /\
+  h (SDict [(0%N, 1#1); (1%N, 2#1)] [0%N]) <> h (SDict [(0%N, 1#1); (1%N, 3#1)] [0%N]).
+Proof. vm_compute. split; [reflexivity|discriminate]. Qed.
+
+(* OVERWRITE: Scope.overwrite(kv) continues on a scope that gives the names of kv their new values, leaves every other
+   parameter as it was, and in which the overwritten names depend on nothing (they are not volatile; parameters of
+   higher layers derived from them only are not volatile either, by C13_volatile).  The reachable-state theorems above
+   (C13_views, C13_history, C13_volatile, C13_volatile_expr ...) quantify over histories that contain OOverwrite. *)
+Theorem C13_overwrite : forall s c kv d, denote_scope s = Ok d -> nodup_keys kv = true ->
+  fst (overwrite s c kv) = overwritten s kv /\
+  wf_scope (overwritten s kv) = wf_scope s /\
+  (exists d', denote_scope (overwritten s kv) = Ok d' /\
+     forall x, lookup d' x = match lookup kv x with Some v => Some v | None => lookup d x end) /\
+  (forall x, depends_on_volatile (overwritten s kv) x =
+             if is_some (lookup kv x) then false else depends_on_volatile s x).
+Proof. exact overwrite_spec. Qed.
+Print Assumptions C13_overwrite.
+
+(* non-vacuity: a volatile constant overwritten by a constant, queried after the overwrite: nothing is volatile *)
+Example C13_overwrite_satisfiable :
+  let st := exec (SMapped (SDict [(0%N, 1#1); (2%N, 3#1)] [2%N]) [(1%N, EAdd (EVar 2%N) (EVar 0%N))], cempty)
+                 [OVol; OGet 1%N; OOverwrite [(2%N, 7#1)]; OVol] in
+  fst (vol (fst st) (snd st)) = Ok [1%N] /\
+  fst (vol (fst (exec st [OOverwrite [(1%N, 0#1)]])) (snd (exec st [OOverwrite [(1%N, 0#1)]]))) = Ok [].
+Proof. vm_compute. auto. Qed.
